@@ -6,6 +6,7 @@ import (
 	"go/constant"
 	"go/token"
 	"go/types"
+	"os"
 	"sort"
 	"strings"
 
@@ -91,6 +92,11 @@ func evalCells(m *matrix, fns []*ssa.Function, lang, dir string) []cellResult {
 	for _, u := range units {
 		cls := requiredClauses(u, dir, lua)
 		groups := m.unitGroups(fns, u)
+		if os.Getenv("FINLINT_DEBUG_CELLS") == lang+"/"+dir {
+			for _, g := range groups {
+				fmt.Printf("DBG %s/%s %s group %s sites=%d deps=%s\n", lang, dir, u, fnKey(g.fn), g.sites, g.deps)
+			}
+		}
 		if u.Target && u.K == kObject && len(groups) == 0 {
 			continue // this generator back-patches match targets only: nothing to judge for object targets
 		}
@@ -246,6 +252,7 @@ func init() {
 		wc := buildWire(w, r)
 		reportCells(r, "C15/lua-sensitivity", wc.cells["lua/dec"])
 		r.floor("C15/lua-sensitivity", 8)
+		wireBeColumn(wc, r, "C15")
 		wireLuaSizes(wc, r)
 		wireTables(w, r, "C15")
 		wireAssumptions(r)
@@ -601,6 +608,72 @@ func tableCols(v ssa.Value, out map[string]bool, seen map[ssa.Value]bool, depth 
 	}
 }
 
+// wireBeColumn: a type table that has a big-endian and a little-endian accessor column (Lua: Be / Le) - the Be column may only be
+// read where the byte order was consulted: under an LE branch, or as the default of a value that the LE branch overrides with Le.
+func wireBeColumn(wc *wireCtx, r *Report, prop string) {
+	rule := prop + "/be-column-guarded"
+	m := wc.m
+	n := 0
+	for _, fn := range wc.anchors["lua"]["own"] {
+		ff := m.facts[fn]
+		if ff == nil {
+			continue
+		}
+		cnt := 0
+		forEachInstr(fn, func(b *ssa.BasicBlock, ins ssa.Instruction) {
+			var v ssa.Value
+			switch x := ins.(type) {
+			case *ssa.Field:
+				if tn, f, _, _ := fieldOf(x); tableTypeNames[tn] && f == "Be" {
+					v = x
+				}
+			case *ssa.UnOp:
+				if fa, ok := x.X.(*ssa.FieldAddr); ok && x.Op == token.MUL {
+					if tn, f, _, _ := fieldOf(fa); tableTypeNames[tn] && f == "Be" {
+						v = x
+					}
+				}
+			}
+			if v == nil {
+				return
+			}
+			n++
+			cnt++
+			key := fmt.Sprintf("%s reads the big-endian accessor only after consulting the byte order", fnKey(fn))
+			if cnt > 1 {
+				key += fmt.Sprintf("#%d", cnt)
+			}
+			ok := false
+			for _, d := range ff.cd.allCtrl(b) {
+				if cond := branchCond(d.Branch); cond != nil {
+					if mode, _, isM := classifyMode(cond); isM && mode == modeLE {
+						ok = true
+					}
+				}
+			}
+			if !ok && v.Referrers() != nil {
+				for _, ref := range *v.Referrers() {
+					if phi, isPhi := ref.(*ssa.Phi); isPhi {
+						cols := map[string]bool{}
+						tableCols(phi, cols, map[ssa.Value]bool{}, 0)
+						if cols["Le"] && m.ctx(fn, nil).phiSelectors(phi.Block())&sLE != 0 {
+							ok = true
+						}
+					}
+				}
+			}
+			if ok {
+				r.pass(rule, key, m.w.instrPos(ins), "")
+			} else {
+				r.fail(rule, key, m.w.instrPos(ins), "the table's Be accessor is used without any test of LittleEndian: with LittleEndian = true the dissector still reads big-endian")
+			}
+		})
+	}
+	if n == 0 {
+		r.note("no read of a Be accessor column found (the table may have been reshaped)")
+	}
+}
+
 var beCounterpart = map[string]string{"java": "BasicType", "python": "BasicType", "lua": "Be"}
 
 func wireLEColumn(wc *wireCtx, r *Report, prop, dir string) {
@@ -789,9 +862,9 @@ func wireArgOrder(wc *wireCtx, r *Report, prop string) {
 // ---------- tables ----------
 
 type tableInfo struct {
-	name  string
-	keys  map[string]map[string]string // key -> column -> value
-	cols  []string
+	name string
+	keys map[string]map[string]string // key -> column -> value
+	cols []string
 }
 
 func readTables(w *World) []tableInfo {
